@@ -330,6 +330,13 @@ class OneWay:
     def env(self, extra=None):
         e = base_env(self.home, path_prefix=self.bindir)
         e["SSH_STANDIN_LOG"] = self.sshlog
+        if self.case.get("envv") == "tmpdir-other-fs":
+            # a temporary directory on ANOTHER file system than the trees (tmpfs): anything staged there cannot be
+            # renamed into place; the unchanged tree stages beside the destination and never looks at TMPDIR
+            t = other_fs_dir(self.root)
+            if t:
+                e["TMPDIR"] = t
+                self.tmp_other = t
         if extra:
             e.update(extra)
         return e
@@ -358,6 +365,21 @@ class OneWay:
 
     def destroy(self):
         rmtree(self.root)
+        if getattr(self, "tmp_other", None):
+            rmtree(self.tmp_other)
+
+
+def other_fs_dir(root):
+    """A scratch directory on a file system other than root's (None if this machine has none)."""
+    import hashlib
+    try:
+        if os.stat("/dev/shm").st_dev == os.stat(root).st_dev:
+            return None
+        t = "/dev/shm/vh-tmp-" + hashlib.md5(root.encode()).hexdigest()[:12]
+        os.makedirs(t, exist_ok=True)
+        return t
+    except OSError:
+        return None
 
 
 PLAN_RE = re.compile(r"Plan: (\d+) to transfer, (\d+) unchanged \(skipped\), (\d+) to delete")
@@ -912,6 +934,9 @@ def c09_scenarios(rng=None):
     # after the crash the user edits the source (same sizes, new bytes, newer mtimes) and only then runs the
     # command again: what the killed run left behind must not leak into the result
     S["source-edited-before-rerun"] = dict(src={"big": (k300, new), "sub/index.bin": (k700[:200000], new), "tiny": (b"t", new)}, dst={"big": (k300[::-1], old), "bystander": (b"keep me", old)}, delete=False, edit_before_rerun=True)
+    # the same two shapes with TMPDIR on another file system (a run that staged there would have to copy across)
+    S["300K-over-older-tmpdir-on-another-fs"] = dict(S["300K-over-older"], envv="tmpdir-other-fs")
+    S["four-files-delete-tmpdir-on-another-fs"] = dict(S["four-files-delete"], envv="tmpdir-other-fs")
     k3m = (k700 * 5)[:3 * 1024 * 1024 + 5000]
     S["3M-over-older"] = dict(src={"big3": (k3m, new), "k": (b"k", new)}, dst={"big3": (k3m[:4096][::-1], old)}, delete=False)
     S["700K-over-older-delete"] = dict(src={"big7": (k700, new), "k": (b"k", new)}, dst={"big7": (k700[:1000], old), "stale/x": (b"s", old)}, delete=True)
@@ -930,7 +955,7 @@ def _c09_worker(args):
         name, direction = jobs[idx]
         if name in scen:
             sc = scen[name]
-            case = {"src": sc["src"], "dst": sc["dst"], "states": {}, "flags": {"delete": sc["delete"], "excludes": [], "jobs": 2, "verbose": False}, "direction": direction, "dstname": "dst", "srcname": "src", "dst_exists": True, "readonly": sc.get("readonly", [])}
+            case = {"src": sc["src"], "dst": sc["dst"], "states": {}, "flags": {"delete": sc["delete"], "excludes": [], "jobs": 2, "verbose": False}, "direction": direction, "dstname": "dst", "srcname": "src", "dst_exists": True, "readonly": sc.get("readonly", []), "envv": sc.get("envv")}
         else:
             rng = SplitMix.derive(seedv, "c09", name)
             case = gen_case(rng, direction, {"clash": False, "max_files": 4, "hostile_roots": False, "leftover": False})
